@@ -402,6 +402,78 @@ def r04_7(ctx):
         raise AnalysisError(f"only {n_sites} unescape sites")
 
 
+# ----------------------------------------------------------------------------- added after the hold-out round
+def r04_8(ctx):
+    """R04.8 repeated `depends on` / `visible if` lines accumulate in both parsers: every store into a node's dep or
+    visibility that is executed once per option line (inside a loop in parser 2, inside the property loop in parser 1)
+    ANDs the new expression onto the slot's previous value - a plain assignment keeps only the last line."""
+    repo = ctx.repo
+    n_sites = 0
+    targets = [(f"{P2}:Parser.parse_options", "loop"), (f"{P2}:Parser.parse_menu", "loop"), (f"{P2}:Parser.parse_comment", "loop"),
+               (f"{CORE}:Kconfig._parse_props", "while")]
+    for q, kind in targets:
+        f = repo.func(q)
+        ctx.analysed(q)
+        for n in ast.walk(f.node):
+            if not (isinstance(n, ast.Assign) and isinstance(n.targets[0], ast.Attribute) and n.targets[0].attr in ("dep", "visibility")):
+                continue
+            # inside a loop?
+            p = repo.parent(n)
+            in_loop = False
+            while p is not None and p is not f.node:
+                if isinstance(p, (ast.For, ast.While)):
+                    in_loop = True
+                p = repo.parent(p)
+            if not in_loop:
+                continue
+            n_sites += 1
+            slot = ast.unparse(n.targets[0])
+            construct = f"{f.short}/`{slot}` accumulates over repeated option lines"
+            v = n.value
+            ok = isinstance(v, ast.Call) and ast.unparse(v.func).endswith("_make_and") and any(ast.unparse(a) == slot for a in v.args)
+            (ctx.ok(construct, f.loc(n)) if ok else
+             ctx.bad(construct, f"`{ast.unparse(n)}` overwrites the slot on every option line: with several `depends on` lines only the last one "
+                     "survives (the other parser ANDs them)", f.loc(n)))
+    if n_sites < 4:
+        raise AnalysisError(f"only {n_sites} accumulating dep/visibility stores found")
+
+
+def r04_9(ctx):
+    """R04.9 sibling details of the two front ends: `$(NAME)` is looked up as a macro before the environment in both parsers;
+    parser 1 expands tabs over the whole help line (as parser 2's preprocess_file does)."""
+    repo = ctx.repo
+    k2 = repo.func(f"{P2}:Parser.kconfigize_expr")
+    ctx.analysed(k2.qual)
+    var_tests = [n for n in ast.walk(k2.node) if isinstance(n, ast.If) and "self.kconfig.variables" in ast.unparse(n.test)]
+    env_tests = [n for n in ast.walk(k2.node) if isinstance(n, ast.If) and ast.unparse(n.test) == "expr in os.environ"]
+    construct = "Parser.kconfigize_expr/$(NAME): macro before environment (as in parser 1)"
+    ok = False
+    if var_tests and env_tests:
+        # the environment test of the $(..) arm must be in the else-chain of the macro test
+        v = var_tests[0]
+        ok = any(e is x for e in env_tests for x in ast.walk(v) if any(x is y for o in v.orelse for y in ast.walk(o)))
+    (ctx.ok(construct, k2.loc(var_tests[0])) if ok else ctx.bad(construct, "the environment is consulted before the Kconfig macros: a macro that shares its name with an "
+                                                                "environment variable expands differently in the two parsers", k2.loc()))
+    f1 = repo.funcs.get(f"{CORE}:Kconfig._fn_val")
+    if f1 is not None:
+        ctx.analysed(f1.qual)
+        src = [n for n in ast.walk(f1.node) if isinstance(n, ast.If)]
+        vt = [n.lineno for n in src if "self.variables" in ast.unparse(n.test)]
+        et = [n.lineno for n in ast.walk(f1.node) if isinstance(n, ast.Attribute) and ast.unparse(n) == "os.environ"]
+        construct = "Kconfig._fn_val/$(NAME): macro before environment"
+        (ctx.ok(construct, f1.loc()) if vt and et and min(vt) < min(et) else ctx.bad(construct, "lookup order changed in parser 1", f1.loc()))
+    h = repo.func(f"{CORE}:Kconfig._parse_help")
+    ctx.analysed(h.qual)
+    exp = [n for n in ast.walk(h.node) if isinstance(n, ast.Call) and isinstance(n.func, ast.Attribute) and n.func.attr == "expandtabs"]
+    construct = "Kconfig._parse_help/tabs expanded over the whole help line"
+    whole = [e for e in exp if isinstance(e.func.value, ast.Name)]
+    partial = [e for e in exp if not isinstance(e.func.value, ast.Name)]
+    (ctx.bad(construct, f"`{ast.unparse(partial[0])}` expands tabs in a part of the line only: an inner tab stays in MenuNode.help under parser 1 while "
+             "parser 2 replaces it by spaces", h.loc(partial[0])) if partial or not whole else ctx.ok(construct, h.loc(whole[0]), sites=len(whole)))
+
+
 def rules():
     return [("R04.1", r04_1, 20), ("R04.2", r04_2, 25), ("R04.3", r04_3, 14), ("R04.4", r04_4, 8), ("R04.5", r04_5, 5),
-            ("R04.6", r04_6, 3), ("R04.7", r04_7, 3)]
+            ("R04.6", r04_6, 3), ("R04.7", r04_7, 3), ("R04.8", r04_8, 4), ("R04.9", r04_9, 2)]
+
+
